@@ -17,7 +17,17 @@ def normalise(case: dict) -> dict:
     """TLC prints a function with an empty domain (Mem = {}) as an empty sequence."""
     for key in ("attr", "inh"):
         case[key] = [x if isinstance(x, dict) else {} for x in case[key]]
+    case.setdefault("delop", {"cls": 0, "name": "", "had": False, "out": "none"})
     return case
+
+
+def source_has(case: dict) -> list:
+    """Members as written in the source: the placement *before* the `del cls[name]` of the case (if any)."""
+    has = [list(h) for h in case["has"]]
+    d = case.get("delop") or {}
+    if d.get("cls") and d.get("had"):
+        has[d["cls"] - 1] = sorted(set(has[d["cls"] - 1]) | {d["name"]})
+    return has
 
 
 # ---------------------------------------------------------------------------------------------------
@@ -36,9 +46,15 @@ def class_path(case: dict, c: int, prefix: str = "") -> str:
 
 def base_spelling(case: dict, c: int, b: int, prefix: str = "", canonical: bool = False) -> str:
     """How the class statement of c names its base b under the layout of the case."""
-    if canonical or case["mods"][c - 1] == case["mods"][b - 1]:
-        return f"C{b}"
     layout = case["layout"]
+    if canonical:
+        return f"C{b}"
+    if layout == "sub":  # subscripted base: every class of this layout defines __class_getitem__ returning itself
+        return f"C{b}[int]"
+    if case["mods"][c - 1] == case["mods"][b - 1]:
+        return f"C{b}"
+    if layout == "nest":  # attribute chain through the holder class (a nested class sees module-level names directly)
+        return f"H.C{b}" if case["mods"][b - 1].endswith(".H") else f"C{b}"
     if layout == "as":
         return f"K{b}"
     if layout == "attr":
@@ -50,7 +66,9 @@ def class_chunk(case: dict, c: int, prefix: str = "", canonical: bool = False, g
     bases = ", ".join(base_spelling(case, c, b, prefix, canonical) for b in case["bases"][c - 1])
     head = f"class C{c}({bases}):" if bases else f"class C{c}:"
     body = []
-    for m in sorted(case["has"][c - 1]):
+    if case["layout"] == "sub" and not canonical:
+        body += ["    def __class_getitem__(cls, item):", "        return cls"]
+    for m in sorted(source_has(case)[c - 1]):
         if MEMBER_KIND.get(m, "attr") == "method":
             body += [f"    def {m}(self):", f"        return 'C{c}'"]
         else:
@@ -66,7 +84,7 @@ def class_chunk(case: dict, c: int, prefix: str = "", canonical: bool = False, g
 def import_lines(case: dict, module: str, prefix: str = "", guarded: bool = False) -> list:
     """Import statements of `module` ('ma' / 'mb' / 'mc' / 'md') under the layout."""
     layout, n = case["layout"], case["n"]
-    if layout == "one":
+    if layout in ("one", "sub", "nest"):
         return []
     mods = case["mods"]
 
@@ -102,7 +120,12 @@ def import_lines(case: dict, module: str, prefix: str = "", guarded: bool = Fals
 def render(case: dict, prefix: str = "", guarded: bool = False) -> dict:
     """module name -> source, as Griffe sees the hierarchy (classes in index order: forward references stay)."""
     out = {}
-    present = {"one": ["ma"], "chain": ["mb", "mc", "ma"], "chain2": ["mb", "mc", "md", "ma"]}.get(case["layout"], ["mb", "ma"])
+    if case["layout"] == "nest":  # one module; classes 1..cut are members of the holder class H
+        inner = [class_chunk(case, c, prefix) for c in range(1, case["n"] + 1) if case["mods"][c - 1].endswith(".H")]
+        outer = [class_chunk(case, c, prefix) for c in range(1, case["n"] + 1) if not case["mods"][c - 1].endswith(".H")]
+        body = "\n".join("\n".join("    " + ln if ln else ln for ln in chunk.split("\n")) for chunk in inner)
+        return {prefix + "ma": "class H:\n" + body + "\n" + "\n".join(outer)}
+    present = {"one": ["ma"], "sub": ["ma"], "chain": ["mb", "mc", "ma"], "chain2": ["mb", "mc", "md", "ma"]}.get(case["layout"], ["mb", "ma"])
     for module in present:
         lines = import_lines(case, module, prefix, guarded)
         chunks = [class_chunk(case, c, prefix, guarded=guarded) for c in range(1, case["n"] + 1) if case["mods"][c - 1] == module]
@@ -137,7 +160,7 @@ def cpython_view(case: dict) -> dict:
     ns: dict = {"__name__": "c07cpy"}
     out = {"mro": {}, "attr": {}}
     for c in order:
-        src = class_chunk(case, c, canonical=True)
+        src = class_chunk(case, c, canonical=case["layout"] != "sub")
         try:
             exec(compile(src, "<c07>", "exec", dont_inherit=True), ns)  # noqa: S102
         except TypeError as exc:
@@ -148,6 +171,17 @@ def cpython_view(case: dict) -> dict:
             continue
         k = ns[f"C{c}"]
         out["mro"][c] = [int(x.__name__[1:]) for x in k.__mro__ if x is not object]
+    d = case["delop"]
+    if d["cls"] and isinstance(out["mro"].get(d["cls"]), list):  # CPython's `del C.m`: own namespace only
+        try:
+            delattr(ns[f"C{d['cls']}"], d["name"])
+            out["del"] = "deleted"
+        except AttributeError:
+            out["del"] = "AttributeError"
+    for c in order:
+        if not isinstance(out["mro"].get(c), list):
+            continue
+        k = ns[f"C{c}"]
         out["attr"][c] = {}
         for m in case["attr"][c - 1]:
             v = getattr(k, m, None)
@@ -160,6 +194,8 @@ def cpython_view(case: dict) -> dict:
 def check_reference(case: dict) -> str | None:
     """None when the spec's CPython transcription (PyLin, ExistsExt, PyGetattr) equals CPython on this case."""
     py = cpython_view(case)
+    if "del" in py and (py["del"] == "deleted") != bool(case["delop"]["had"]):
+        return f"del C{case['delop']['cls']}.{case['delop']['name']}: CPython {py['del']}, reference says own member = {case['delop']['had']}"
     for c in range(1, case["n"] + 1):
         ref = case["ref"][c - 1]
         if case["cyc"][c - 1]:
@@ -203,6 +239,24 @@ def load_disk(griffe, sources: dict, directory: str, force_inspection: bool = Fa
         loader.load(name)
     loader.resolve_aliases()
     return loader.modules_collection
+
+
+def apply_del(case: dict, coll, prefix: str = "") -> str:
+    """`del cls[name]` of the case on the real class -> "deleted" / "noop" / "KeyError" / exception name."""
+    d = case["delop"]
+    if not d["cls"]:
+        return "none"
+    k = coll.get_member(class_path(case, d["cls"], prefix))
+    had = d["name"] in k.members
+    try:
+        del k[d["name"]]
+    except KeyError:
+        return "KeyError"
+    except RecursionError:
+        return "RecursionError"
+    except Exception as exc:  # noqa: BLE001
+        return type(exc).__name__
+    return "deleted" if had and d["name"] not in k.members else "noop"
 
 
 def _member_view(a) -> dict:
@@ -418,9 +472,18 @@ def check_case(griffe, case: dict, agent: str = "visit", directory: str | None =
             coll = load_static(griffe, sources)
         else:
             coll = load_disk(griffe, sources, directory, force_inspection=False)
+        delout = apply_del(case, coll, prefix)
         real = real_view(case, coll, prefix)
     except Exception as exc:  # noqa: BLE001
         forward = any(b > c for c in range(1, case["n"] + 1) for b in case["bases"][c - 1])
         return {"viol": [({"clause": "load-total", "agent": agent, "domain": case["domain"], "layout": case["layout"], "kind": "-", "forward": forward, "who": "class"}, f"loading raised {exc!r}")], "drift": 0, "sources": sources}
     viol, drift = compare(case, real, agent, prefix)
+    d = case["delop"]
+    if d["cls"] and delout != d["out"]:
+        if delout in ("deleted", "noop", "KeyError"):
+            drift += 1  # differs from the model's transcription of __delitem__; the verdict is the state compared above
+        else:
+            forward = any(b > c for c in range(1, case["n"] + 1) for b in case["bases"][c - 1])
+            viol.append(({"clause": "del-crashes", "agent": agent, "domain": case["domain"], "layout": case["layout"], "kind": class_kind(case, d["cls"]), "forward": forward, "who": "class"},
+                         f"del {class_path(case, d['cls'], prefix)}[{d['name']!r}] raised {delout}"))
     return {"viol": viol, "drift": drift, "sources": sources, "real": real}
